@@ -19,9 +19,9 @@ def idx(op, *ks):
     return syn(('_', op) + tuple(str(k) for k in ks))
 
 
-def make(rng, cls):
+def make(rng, cls, exotic=0.0):
     """Returns (script text, the interesting term as T) for one instance accepted by mutator cls, or None."""
-    g = Gen(rng, ['core', 'ints', 'reals', 'bv', 'strings', 'dt', 'arrays'], quant=True)
+    g = Gen(rng, ['core', 'ints', 'reals', 'bv', 'strings', 'dt', 'arrays'], quant=True, exotic=exotic)
     g.declare(nvars=5)
     d = rng.choice([0, 1, 1, 2])
     w = rng.choice([1, 2, 3, 4, 5, 8])
@@ -166,7 +166,14 @@ def make(rng, cls):
     elif cls == 'StringReplaceAll':
         t = app('=', [app('str.replace_all', [g.term(STRING, d), g.term(STRING, 0), g.term(STRING, 0)], STRING), g.term(STRING, 0)], BOOL)
     elif cls == 'StringContainsToConcat':
-        t = app('str.contains', [g.base(STRING) if rng.random() < 0.6 else g.term(STRING, 1), g.term(STRING, d)], BOOL)
+        if rng.random() < 0.6:
+            hay = g.fresh('hay')          # a declared symbol as first operand (the mutator derives two names from it)
+            g.cmds.append(syn(('declare-const', hay, STRING)))
+            g.vars.append((hay, STRING))
+            first = leaf(hay, STRING)
+        else:
+            first = g.base(STRING) if rng.random() < 0.5 else g.term(STRING, 1)
+        t = app('str.contains', [first, g.term(STRING, d)], BOOL)
     elif cls == 'StringSimplifyConstant':
         c = leaf(rng.choice(['"abc123"', '"a""b""c d"', '"\\u{1F600}xyz\\x41"', '"x y ; ( )"', '""""']), STRING)
         t = app('=', [c, g.term(STRING, d)], BOOL)
